@@ -125,10 +125,25 @@ CHECKS.update({
        "two candidates racing (schedules), the leader's heartbeat loop, process supervision.", ref="A C19"),
 })
 
+CHECKS.update({
+ "C11": dict(
+  text="One client write on the leader as two solver-decided steps sharing the forwarded command as interface, on the real code: (1) mapping - `forward_api_call` / "
+       "`forward_to_followers` (lib.rs) on a set / cset / delete / pdelete with solver-chosen payload (value, 64-bit version) queues exactly one command of the matching kind "
+       "with the client's key, value and version, UNFORCED, for the follower; reads and session calls queue nothing; (2) apply - two real cores with equal contents "
+       "(solver-chosen values, plain / CAS kinds, 64-bit stored version): the leader executes the core call `process_api_call` makes for the request, the follower the real "
+       "`process_leader_message(Mut(command))`; afterwards both answer the same cget for every key and have the same length - also when the leader REJECTED the request (set on a CAS key).",
+  note=BASE + "Covered apply steps: set (plain key, CAS key), delete, pdelete. NOT reached (out of memory at 45 GB, stated rather than claimed): the apply step of cset, session end "
+       "(`disconnected` on the leader vs what the follower is sent), follower join (`initial_sync` / StateSync) and the follower's refusal of direct writes (the 27-variant `WbFunction` "
+       "dispatch of process_api_call is a union whose tag CBMC does not fold - every arm runs at once); harnesses for them exist (tier=manual) and their first results are described "
+       "in DESIGN.md A as unconfirmed observations, not findings. Outside: TCP transport and line codec of the sync channel, more than one follower, quiescence detection.", ref="A C11"),
+})
+
 NA = {
 }
-PENDING = ["C10","C11","C12"]
+PENDING = []
 NA_FIXED = {
+ "C10": "crash-consistency of the JSON persistence is a property of file-system call sequences (tokio::fs write / rename / remove of the a/b files, checksum files and the toggle file in persistence/json/v3.rs) under a crash at any point; encoding it needs a model file system with a symbolic crash point underneath async tokio::fs code plus the serde_json text codec and SHA-256 over file contents - the codec alone exhausts 17-19 GB / 10 min for a one-field message (measured, see C14) and hashing is a loop over symbolic bytes; no kernel of the property is left once both are cut out, so it is declined rather than claimed on a model",
+ "C12": "promotion of a follower is the composition of the sync channel (TCP, line codec), the persistence files (see C10) and process supervision by the cluster orchestrator; the only sequential kernel - that a follower's store equals the leader's after each forwarded command - is what C11 decides, and the part specific to C12 (registrations known to the follower at promotion) needs initial_sync / StateSync, which did not fit (C11 level_note)",
  "C14": "the property is the serde_json text codec composed with serde derives; the real codec exhausts 17-19 GB / 10 min under Kani/CBMC for a one-field message (measured), and a model codec would only verify the model",
  "C18": "ReDB is an on-disk B-tree behind a background writer task and file I/O; neither the database nor the batching schedule can be executed symbolically here and no pure kernel of the property remains",
  "C20": "answer pairing under concurrent tasks, a live server and a time-driven send buffer are schedule properties of multi-task tokio code; Kani does not handle concurrency and the one sequential kernel (transaction-id allocation) decides no clause of the statement",
